@@ -166,11 +166,19 @@ inline std::vector<cell_ptr> build_cells(const Scenario& s, std::vector<cell_typ
 // refiner then needs (extent / l_max)^2 operations and practically never returns.  Monitored runs end at the first sign of it (checked by
 // the phase hook right after the integration phase) and the case is counted as 'unstable', never as a verdict.
 struct unstable_run {};
+// An unstable simulation (time step too large for the stiffness drawn) lets coordinates explode; the refiner then needs ever more faces and
+// practically never returns.  Such runs are no subject of any property: the phase hook ends them (tis::unstable_run) as soon as a coordinate
+// leaves `limit` or a single cell spans more than 5 times the largest cell of the input (cells at most double their volume before dividing).
+inline double& cell_extent_cap() { static double cap = 0; return cap; }
 inline bool blown_up(const std::vector<cell_ptr>& L, double limit) {
-    for (auto& c : L) for (const node& n : cell_tester::nodes(*c)) if (n.is_used()) { double x = n.pos().dx(), y = n.pos().dy(), z = n.pos().dz(); if (!(std::fabs(x) < limit && std::fabs(y) < limit && std::fabs(z) < limit)) return true; }
+    const double cap = cell_extent_cap();
+    for (auto& c : L) { double lo[3] = {1e300, 1e300, 1e300}, hi[3] = {-1e300, -1e300, -1e300};
+        for (const node& n : cell_tester::nodes(*c)) if (n.is_used()) { double x[3] = {n.pos().dx(), n.pos().dy(), n.pos().dz()}; for (int d = 0; d < 3; d++) { if (!(std::fabs(x[d]) < limit)) return true; lo[d] = std::min(lo[d], x[d]); hi[d] = std::max(hi[d], x[d]); } }
+        if (cap > 0) for (int d = 0; d < 3; d++) if (hi[d] - lo[d] > cap) return true; }
     return false;
 }
-inline double extent_limit(const Scenario& s) { double m = 0; for (auto& c : s.cells) for (auto& p : c.mesh.P) for (double x : p) m = std::max(m, std::fabs(x)); return 100.0 * (m + 1e-4); }
+inline double extent_limit(const Scenario& s) { double m = 0, e = 0; for (auto& c : s.cells) { double lo[3] = {1e300, 1e300, 1e300}, hi[3] = {-1e300, -1e300, -1e300}; for (auto& p : c.mesh.P) for (int d = 0; d < 3; d++) { m = std::max(m, std::fabs(p[d])); lo[d] = std::min(lo[d], p[d]); hi[d] = std::max(hi[d], p[d]); } for (int d = 0; d < 3; d++) e = std::max(e, hi[d] - lo[d]); }
+    cell_extent_cap() = 5.0 * e; return 100.0 * (m + 1e-4); }
 
 // solver with its protected state exposed
 class msolver : public solver {
